@@ -6,8 +6,9 @@
    `input_count` is the header's [a_inputs]).  As in the code, every count of the written header is
    the length of the corresponding vector; of the record's header only [a_max_var] (and, for an
    ordered value, [a_inputs]) is looked at.
-   write_aig / write_aag_ordered compute the codes in unbounded N; write_aig_checked adds the writer's
-   panics (assertion, usize overflow).  Buffering/IO errors of the DeferredWriter are in Writer.v. *)
+   write_aig computes the running code as the code does (wrapping usize arithmetic, D14); write_aig_checked adds
+   the writer's assertion.  write_aag_ordered computes its codes in unbounded N (`code += 2` per input line: an
+   overflow would take 2^63 written lines).  Buffering/IO errors of the DeferredWriter are in Writer.v. *)
 From Flussab Require Import Base Writer Consts Varint Aiger.
 
 (* write_header: `while let Some((0, rest)) = fields.split_last() { if rest.len() >= 5 { fields = rest } else { break } }` *)
@@ -111,15 +112,15 @@ Definition write_aag_ordered (a : aig) : bytes :=
   ++ w_aands c2 (g_ands a)
   ++ w_trailer a.
 
-(* binary write_latch: `self.code` is the latch's own literal *)
+(* binary write_latch: `self.code` is the latch's own literal; `self.code = self.code.wrapping_add(2)` *)
 Fixpoint w_olatches (code : N) (ls : list (option N * N * option bool)) : bytes :=
   match ls with
   | [] => []
-  | (_, n, i) :: r => (decimal_N n ++ w_init code i) ++ w_olatches (code + 2) r
+  | (_, n, i) :: r => (decimal_N n ++ w_init code i) ++ w_olatches ((code + 2) mod W64) r
   end.
 
 (* binary write_and_gate: the inputs are swapped so that the first is the larger one;
-   `assert!(code_0 <= self.code)`; two deltas *)
+   `assert!(code_0 <= self.code)`; two deltas; `self.code = self.code.wrapping_add(2)` *)
 Definition w_oand (code x y : N) : bytes :=
   let c0 := if x <? y then y else x in
   let c1 := if x <? y then x else y in
@@ -127,38 +128,35 @@ Definition w_oand (code x y : N) : bytes :=
 Fixpoint w_oands (code : N) (gs : list (option N * N * N)) : bytes :=
   match gs with
   | [] => []
-  | (_, x, y) :: r => w_oand code x y ++ w_oands (code + 2) r
+  | (_, x, y) :: r => w_oand code x y ++ w_oands ((code + 2) mod W64) r
   end.
-(* binary::Writer::write_ordered_aig, provided nothing panics *)
+
+(* write_header: `self.code = header.input_count.wrapping_add(1).wrapping_mul(2)` (as the parser computes it);
+   the code behind the latches: L wrapping additions of 2 *)
+Definition ocode1 (a : aig) : N := (((a_inputs (g_header a) + 1) mod W64) * 2) mod W64.
+Definition ocode2 (a : aig) : N := (ocode1 a + 2 * nlen (g_latches a)) mod W64.
+
+(* binary::Writer::write_ordered_aig, provided no assertion fails *)
 Definition write_aig (a : aig) : bytes :=
-  let i := a_inputs (g_header a) in
-  let c1 := (i + 1) * 2 in
-  let c2 := c1 + 2 * nlen (g_latches a) in
-  w_header magic_binary (a_max_var (g_header a)) i (nlen (g_latches a)) (nlen (g_outputs a))
+  w_header magic_binary (a_max_var (g_header a)) (a_inputs (g_header a)) (nlen (g_latches a)) (nlen (g_outputs a))
            (nlen (g_ands a)) (nlen (g_bad a)) (nlen (g_constraints a)) (nlen (g_justice a)) (nlen (g_fairness a))
-  ++ w_olatches c1 (g_latches a)
+  ++ w_olatches (ocode1 a) (g_latches a)
   ++ w_middle a
-  ++ w_oands c2 (g_ands a)
+  ++ w_oands (ocode2 a) (g_ands a)
   ++ w_trailer a.
 
-(* The writer computes the codes in usize without wrapping: `(input_count + 1) * 2` in write_header and
-   `self.code += 2` in write_latch / write_and_gate.  With overflow checks (debug builds) these panic, without
-   they wrap (and the wrapped value is not used any more).  The parser accepts headers up to
-   I + L + A = M = (usize::MAX - 1) / 2, for which the last of these additions reaches 2^64. *)
-Inductive wres := WrOk (b : bytes) | WrOverflow | WrAssert.
+(* The only panic left in the writer is `assert!(code_0 <= self.code)` of write_and_gate: it fires for a gate one
+   of whose inputs is a literal above the gate's own literal 2 (I + L + 1 + k) (a forward reference; the parser
+   never returns such a gate, a hand-built or wrongly renumbered OrderedAig can have one).
+   (Until D14 the code arithmetic was unchecked-in-release / panicking-in-debug; it wraps now, like the parser's.) *)
+Inductive wres := WrOk (b : bytes) | WrAssert.
 
-(* the gates in order: the assertion, then `self.code += 2` *)
 Fixpoint oands_check (code : N) (gs : list (option N * N * N)) (k : wres) : wres :=
   match gs with
   | [] => k
   | (_, x, y) :: r =>
-      if (if x <? y then y else x) <=? code then
-        if W64 <=? code + 2 then WrOverflow else oands_check (code + 2) r k
-      else WrAssert
+      if (if x <? y then y else x) <=? code then oands_check ((code + 2) mod W64) r k else WrAssert
   end.
 
-(* binary::Writer::write_ordered_aig with its panics *)
-Definition write_aig_checked (a : aig) : wres :=
-  let c1 := (a_inputs (g_header a) + 1) * 2 in
-  let c2 := c1 + 2 * nlen (g_latches a) in
-  if W64 <=? c2 then WrOverflow else oands_check c2 (g_ands a) (WrOk (write_aig a)).
+(* binary::Writer::write_ordered_aig with its panic *)
+Definition write_aig_checked (a : aig) : wres := oands_check (ocode2 a) (g_ands a) (WrOk (write_aig a)).
